@@ -384,10 +384,30 @@ def slaughter(index, rep):
     rep.check(bool(lower), rule, "hours left asserted >= 0",
               "the remaining labour hours are no longer asserted to stay non-negative", loc=loc(ANIM, cc))
     hb = index.func(ANIM, "calculate_net_slaughter_hours_by_size")
-    t = norm_src(hb)
-    import re as _re
-    okb = bool(_re.search(r"for (\w+) in \['small', 'medium', 'large'\]", t)) and bool(_re.search(
-        r"sum\(\((\w+)\.animal_slaughter_hours \* \1\.baseline_slaughter for \1 in \w+ if \1\.animal_size == \w+\)\)", t))
+    # evaluated on a small herd of mixed sizes: every class's budget is the sum of hours/head x baseline slaughter over its members
+    sizes = ["small", "medium", "small", "large"]
+    herd4 = [Obj(None, {"animal_size": sz, "animal_slaughter_hours": Rat.atom(("h", k_)), "baseline_slaughter": Rat.atom(("b", k_))}, f"a{k_}")
+             for k_, sz in enumerate(sizes)]
+
+    def run_b(itb):
+        def hookb(interp, d, a, kw, node):
+            if d == "sum" and len(a) == 1 and isinstance(a[0], (PList, tuple)):
+                tot = Rat.const(0)
+                for x in (a[0].items if isinstance(a[0], PList) else a[0]):
+                    tot = tot + interp.to_rat(x)
+                return tot
+            return NotImplemented
+        itb.call_hook = hookb
+        return itb.call_function(hb, [PList(list(herd4))], {}, None)
+
+    try:
+        lb = [x for x in explore(run_b, month_classes=False) if not isinstance(x[2], Abort)]
+    except Unsupported as e:
+        raise AnalysisError(f"calculate_net_slaughter_hours_by_size outside the analysed fragment: {e}")
+    okb = bool(lb)
+    for _, dec_b, res_b, itb in lb:
+        want_b = {sz: sum((Rat.atom(("h", k_)) * Rat.atom(("b", k_)) for k_, s_ in enumerate(sizes) if s_ == sz), Rat.const(0)) for sz in ("small", "medium", "large")}
+        okb = okb and isinstance(res_b, PDict) and all(sz in res_b.d and itb.to_rat(res_b.d[sz]) == want_b[sz] for sz in want_b)
     rep.check(okb, rule, "budget = sum over the size class of hours/head x baseline slaughter",
               "the labour budget per size class is not the baseline capacity of that class", loc=loc(ANIM, hb))
     main, ml, mleaves = herd.month_trace(index)
